@@ -439,5 +439,28 @@ RULE_ADDENDA = {
             "in an empty directory only (known finding); the general lookup is compared with the specific ones."),
     "C04": ("An unprivileged pass of the links sub-check, with scenario families that put the offending link into a directory recorded as read-only."),
 }
+RULE_ADDENDA_R7 = {
+    "C01": ("Destinations may already hold names that are hard links of files outside (replacing such a name changes only link count and "
+            "change time of the outside file, which are masked for exactly those files); entry names that pass through a link of the archive and step up ('l -> .', 'l/../x')."),
+    "C02": ("Manyfiles sub-check: 90-260 files packed and unpacked in a process limited to 64 open files."),
+    "C03": ("Names shared by rules and trees include non-ASCII ones and names that need a backslash in a rule ('#scratch#', '!NOTES.txt', 'star*', 'q?'); "
+            "an eighth of the rule files are reached through a symlink '.terraformignore -> <file of the tree>'."),
+    "C04": ("An allow-listed reading only covers a link if the operating system goes where the text says (scenario family: 'a -> .' with "
+            "'b -> a/../../outside/f' under AllowSymlinkTarget('../outside'))."),
+    "C05": ("Planted families: a link that leaves the tree only by way of links of the tree, met inside a dereferenced directory (a second name of an "
+            "in-tree directory, or an external directory); names include leading dots ('..dots', '...') and a non-UTF-8 byte."),
+    "C09": ("Reverse lookups are asked six times on each bundle (the answer is a function of the bundle, also where packages share a directory)."),
+    "C12": ("Sourcevanish sub-check: the output writer removes the last listed entry of the source root when the first byte arrives (the walk has "
+            "listed it, it can no longer be read): Pack must return an error. Policy sub-check: up to two further offending links behind the first."),
+    "C14": ("Faultedtrace also cancels the context at callback boundary 1-14 and lets the n-th download deliver an absolute link (refused after the "
+            "download succeeded); a failure event before the real call is accepted, a success event is not."),
+    "C16": ("Deepderef sub-check: 34-44 nested dereferenced directories packed through plain, trailing-slash, dot-segment, relative and 1-4-link spellings "
+            "(the nesting limit may not depend on the spelling). Danglingroot sub-check: a source link whose relative target names nothing beside the link, from five working directories (known finding)."),
+    "C18": ("Probed file names include '?', '#' and '%'; every manifest is also opened by a relative directory name from a working directory that is left afterwards."),
+    "C19": ("Raw manifests include null elements in the package and registry arrays."),
+    "C20": ("Names include a non-UTF-8 byte and leading dots."),
+}
 for _k, _v in RULE_ADDENDA.items():
+    PROPS[_k]["rule"] += " " + _v
+for _k, _v in RULE_ADDENDA_R7.items():
     PROPS[_k]["rule"] += " " + _v
